@@ -195,7 +195,9 @@ def sink_cases(thorough):
                         yield {"ndim": ndim, "state": state, "legacy": legacy, "extra": extra, "units": ui}
                         if not legacy and state not in ("missing", "empty") and extra == ["lx"]:
                             # unit-line entries that are general expressions in m, l, t
-                            for exprs in (["m/t", "m**0.5 l**-0.5 t**-1", "(l/t)**2"], ["m*l**2", "l**3/t", "m l**-1 t**-2"], ["1/t", "m l**2.0 t**-1", "m t**-1 l**-2"]):
+                            for exprs in (["m/t", "m**0.5 l**-0.5 t**-1", "(l/t)**2"], ["m*l**2", "l**3/t", "m l**-1 t**-2"], ["1/t", "m l**2.0 t**-1", "m t**-1 l**-2"],
+                                          # ... with a numeric factor in front (a blank after a number is a product like any other)
+                                          ["1 t**-1", "0.5 m", "0.5 m l**2 t**-2"], ["2 l", "1 m l**-3", "(1) t**-1"]):
                                 yield {"ndim": ndim, "state": state, "legacy": legacy, "extra": ["acc", "bnorm", "cs2"], "units": ui, "exprs": exprs}
                         if ndim > 1 and state not in ("missing", "empty"):
                             for order in ("rev", "rot"):
@@ -213,7 +215,7 @@ def sink_unit_factor(expr, legacy, out):
     if expr == "1":
         return 1.0, M2.dims_of()
     base = {"m": eu["mass"], "l": eu["length"], "t": eu["time"]}
-    if any(ch in expr for ch in "/().") or "*" in expr.replace("**", ""):
+    if any(ch in expr for ch in "/().") or "*" in expr.replace("**", "") or any(tok[:1].isdigit() for tok in expr.split()):
         # a general expression in m, l, t (a blank is a product): evaluated with this model's own unit arithmetic
         class U:
             def __init__(self, f, d):
